@@ -339,7 +339,9 @@ def run_stage(env, stage, out_dir, n_proc=None):
                                max_gb=3e-5, n_valid=40, p_th=0.2,
                                q1_th=0.3, q1_min_th=0.05, qdiff_th=0.3,
                                qdiff_min_th=0.05, log2_fold_th=0.5,
-                               log2_fold_min_th=0.1)
+                               log2_fold_min_th=0.1,
+                               gene_list=[g for k, g in enumerate(
+                                   env.big_ref.genes) if k % 4 != 3])
         elif stage == 'pmask':
             outs['pmask'] = out_dir / 'pmask_out.h5'
             pw.run_p_mask(env.stats, outs['pmask'], env.tmp,
